@@ -631,6 +631,7 @@ def model_module_op(spec, f):
             msgs.append({"path": path, "fields": [model_field(spec, syms, full, fl) for fl in m["fields"]]})
     return {"op": "c02.module", "version": version_of(pkg), "package": pkg.split("."), "module": f["name"],
             "collisions": file_collisions(spec, f), "order": [e["name"] for e in f["enums"]] + [m["name"] for m in f["messages"]],
+            "top_enums": [e["name"] for e in f["enums"]], "top_messages": [m["name"] for m in f["messages"]],
             "types": types, "enums": [s["path"] for s in syms.values() if s["file"] == f["name"] and s["kind"] == "enum"],
             "messages": msgs}
 
@@ -798,12 +799,12 @@ def compare(ctx, spec, syms, files, out, model, trips, codec, shadows, payload):
     for k in sorted(set(out["enums"]) - want_enums):
         ctx.fail("descriptor:extra-class", f"emitted enum {k} has no input enum", payload)
     pypkg = out["modules"][0].rsplit(".types.", 1)[0] if out["modules"] else ""
-    # manifests: exactly the top-level names of each file
-    for f in spec["files"]:
-        want = sorted([e["name"] for e in f["enums"]] + [m["name"] for m in f["messages"]])
+    # manifests (T3 correspondence: the model's manifest vs the module's __protobuf__.manifest)
+    for f, mo in zip(spec["files"], model):
         got = out["manifests"].get(f"{pypkg}.types.{f['name']}")
-        if got != want:
-            ctx.fail("manifest", f"module {f['name']}: manifest {got} != top-level names {want}", payload)
+        ctx.traces += 1
+        if got != sorted(mo.get("manifest", [])):
+            ctx.disagree("T3:c02.manifest", f"module {f['name']}: manifest {got} vs model {sorted(mo.get('manifest', []))}", payload)
     by_full_input = {}
     for fpb in files:
         def walk(msgs, prefix):
@@ -828,7 +829,9 @@ def compare(ctx, spec, syms, files, out, model, trips, codec, shadows, payload):
         got = norm_input(rt)
         check_message(ctx, full, want, got, rt, shadow_set, payload)
         check_model(ctx, full, model_by_path.get(full), rt, payload)
-    for full in sorted(want_enums & set(out["enums"])):
+    enum_fulls = sorted(want_enums & set(out["enums"]))
+    enum_model = ask(ctx, [{"op": "c02.enum", "values": syms[full]["spec"]["values"]} for full in enum_fulls])
+    for full, emo in zip(enum_fulls, enum_model):
         rec = out["enums"][full]
         s = syms[full]
         e = dp.EnumDescriptorProto.FromString(base64.b64decode(rec["desc"]))
@@ -840,6 +843,9 @@ def compare(ctx, spec, syms, files, out, model, trips, codec, shadows, payload):
             ctx.fail("descriptor:nesting", f"enum {full} is emitted as {rec['qualname']}", payload)
         if sorted(rec["members"]) != want:
             ctx.fail("descriptor:enum-values", f"{full}: python members {sorted(rec['members'])} != input {want}", payload)
+        ctx.traces += 1
+        if emo.get("values") != [[v.name, v.number] for v in e.value]:
+            ctx.disagree("T3:c02.enum", f"{full}: model {emo} vs run-time value order {[[v.name, v.number] for v in e.value]}", payload)
     # ---- two-way round trips and JSON
     tainted = reaches(spec, syms, {a for a, _ in shadow_set}) if shadow_set else set()
     for t, rt_ in zip(trips, out["roundtrips"]):
@@ -1127,6 +1133,37 @@ def corpus_specs():
     return out
 
 
+def excluded_points():
+    """inputs the generator excludes (see the assumptions): run on the real code on every check, reported under
+    `excluded_points` in the evidence, never as violations (they lie outside the generator's responsibility or outside
+    the names the quantifier is about)"""
+    P = "acme.lib.v1"
+    return [
+        ("negative-enum-number", "proto-plus sorts enum values by number; protobuf rejects an open enum whose first value is not 0",
+         {"package": P, "files": [{"name": "alpha", "enums": [{"name": "Kind", "values": [["KIND_UNSPECIFIED", 0], ["KIND_NEG", -1]]}],
+                                   "messages": []}]}),
+        ("field-named-like-pb2-import", "a field called timestamp_pb2 declared before a google.protobuf.Timestamp field shadows the import",
+         {"package": P, "files": [{"name": "alpha", "enums": [], "messages": [{"name": "A", "oneofs": [], "messages": [], "enums": [], "fields": [
+             {"name": "timestamp_pb2", "number": 1, "card": "single", "type": "string"},
+             {"name": "at", "number": 2, "card": "single", "type": "message", "ref": "google.protobuf.Timestamp"}]}]}]}),
+    ]
+
+
+def run_excluded(ctx):
+    import common
+    notes = []
+    for key, why, spec in excluded_points():
+        sub = common.Ctx(ctx.prop, ctx.tier, ctx.seed)
+        sub.driver = ctx.driver
+        try:
+            run_spec(sub, sub.rng("excluded", key), spec, "excluded:" + key, nvals=1)
+            notes.append({"point": key, "why_excluded": why,
+                          "observed": sorted({f["key"] for f in sub.failures}) or ["holds"]})
+        except Exception as e:  # noqa
+            notes.append({"point": key, "why_excluded": why, "observed": ["harness-error:" + type(e).__name__]})
+    ctx.notes["excluded_points"] = notes
+
+
 def run(ctx):
     ctx.rule = ("file sets of one package: 1..3 files, messages nested to depth <= 4, every scalar type, enums (aliases, unsorted "
                 "numbers), repeated / proto3-optional / oneof members / maps over every legal key type, references to self, "
@@ -1144,6 +1181,7 @@ def run(ctx):
                "the name <module>_pb2 of an imported dependency module, or the name of a Python builtin used as a bare class name")
     ctx.assume("no field is named <reserved word>_ next to a field named <reserved word> (protoc rejects the JSON-name conflict)")
     t2_tables(ctx)
+    run_excluded(ctx)
     r = ctx.rng("types")
     for fn, payload in corpus_specs():
         run_spec(ctx, r, payload["spec"], "corpus:" + fn)
